@@ -154,13 +154,6 @@ theorem ext_autocommitOffKs : Ext w (autocommitOffKs ctx c w).1 := by
   have h := ext_call ctx .A0 c w
   generalize call ctx .A0 c w = p at h
   exact h
-theorem ext_dropTx (lost : Nat) : Ext w (dropTx ctx lost c w) := by
-  unfold dropTx
-  split
-  · exact Ext.refl _
-  · split
-    · exact ext_recycle _ _
-    · exact (ext_call _ _ _ _).trans (ext_recycle _ _)
 theorem ext_pingDrop (b : Bool) : Ext w (pingDrop b c w) := by
   unfold pingDrop
   split
@@ -184,6 +177,23 @@ theorem ext_executeUnshard : Ext w (executeUnshardSQLInSlice ctx c w).1 := by
   split
   · exact h.trans (ext_close _ _)
   · exact h
+theorem ext_executeMultiple (rs : Bool) : Ext w (executeMultipleSQLInSlice ctx rs c w).1 := by
+  unfold executeMultipleSQLInSlice executeCompleteSQLInSlice
+  have h := ext_executeSingle ctx c w
+  generalize executeSingleSQLInSlice ctx c w = p at h
+  obtain ⟨w1, r⟩ := p
+  simp only
+  split
+  · have h2 := h.trans (ext_call ctx .M c w1)
+    generalize call ctx .M c w1 = pM at h2
+    obtain ⟨w2, r2⟩ := pM
+    simp only
+    have hne : (if r2.isOk = true then Res.ok else Res.e) ≠ Res.t := by split <;> simp
+    rw [if_neg hne]; exact h2
+  · simp only
+    split
+    · exact h.trans (ext_close _ _)
+    · exact h
 end bodies
 
 theorem ext_beginAll (ctx : Ctx) : ∀ (cs : List Nat) (w : World), Ext w (beginAll ctx cs w).1 := by
@@ -216,18 +226,18 @@ theorem ext_pingAll (ctx : Ctx) : ∀ (cs : List Nat) (w : World), Ext w (pingAl
     · exact h.trans (ih _)
     · exact h.trans (ext_close _ _)
 
-theorem ext_execShard (ctx : Ctx) : ∀ (cs : List Nat) (w : World), Ext w (execShard ctx cs w).1 := by
+theorem ext_execShard (ctx : Ctx) (rs : Bool) : ∀ (cs : List Nat) (w : World), Ext w (execShard ctx rs cs w).1 := by
   intro cs
   induction cs with
   | nil => intro w; exact Ext.refl _
   | cons c cs ih =>
     intro w
     simp only [execShard]
-    have h := ext_executeSingle ctx c w
-    generalize executeSingleSQLInSlice ctx c w = p at h
+    have h := ext_executeMultiple ctx c w rs
+    generalize executeMultipleSQLInSlice ctx rs c w = p at h
     obtain ⟨w1, r⟩ := p
     have h2 := ih w1
-    generalize execShard ctx cs w1 = p2 at h2
+    generalize execShard ctx rs cs w1 = p2 at h2
     obtain ⟨w2, ok⟩ := p2
     exact h.trans h2
 
@@ -280,8 +290,8 @@ theorem ext_getBackendKsConn (sl : Nat) : Ext s.w (getBackendKsConn ctx sl s).1.
   unfold getBackendKsConn
   split
   · exact Ext.refl _
-  · have hp := ext_sliceGetConn ctx (ctx.cfg.user == .r) sl s.w
-    generalize sliceGetConn ctx (ctx.cfg.user == .r) sl s.w = p at hp
+  · have hp := ext_sliceGetConn ctx false sl s.w
+    generalize sliceGetConn ctx false sl s.w = p at hp
     obtain ⟨w1, r⟩ := p
     cases r with
     | none => exact hp
@@ -319,12 +329,6 @@ theorem ext_getBackendConn (fs : Bool) (sl : Nat) : Ext s.w (getBackendConn ctx 
       cases r <;> exact hp
     · exact ext_getTransactionConn sl
 
-theorem ext_recycleTx (c : Nat) : Ext s.w (recycleTx ctx c s).w := by
-  unfold recycleTx
-  split
-  · exact Ext.refl _
-  · exact ext_foldl (dropTx ctx c) (fun d w => ext_dropTx ctx d w c) _ _
-
 theorem ext_recycleRest (c : Nat) :
     Ext s.w (if ctx.cfg.ks then clearKsConns ctx s else if s.isInTransaction then s else { s with w := recycle c s.w }).w := by
   split
@@ -339,7 +343,9 @@ theorem ext_recycleBackendConn (pc : Option Nat) : Ext s.w (recycleBackendConn c
   · exact Ext.refl _
   · dsimp only
     split
-    · exact (ext_recycleTx (ctx := ctx) (s := s) _).trans (ext_recycle _ _)
+    · split
+      · exact Ext.refl _
+      · exact ext_recycle _ _
     · split
       · exact Ext.refl _
       · exact ext_recycleRest _
@@ -350,7 +356,9 @@ theorem ext_recycleContinueConn (pc : Option Nat) : Ext s.w (recycleContinueConn
   · exact Ext.refl _
   · dsimp only
     split
-    · exact (ext_recycleTx (ctx := ctx) (s := s) _).trans (ext_recycle _ _)
+    · split
+      · exact Ext.refl _
+      · exact ext_recycle _ _
     · exact ext_recycleRest _
 
 theorem ext_executeSQL (fs : Bool) (sl : Nat) : Ext s.w (executeSQL ctx fs sl s).1.w := by
@@ -405,7 +413,7 @@ theorem ext_recycleBackendConns (pcs : CMap) : Ext s.w (recycleBackendConns ctx 
   · exact Ext.refl _
   · exact ext_foldl recycle ext_recycle _ _
 
-theorem ext_executeSQLs (fs : Bool) (slices : List Nat) : Ext s.w (executeSQLs ctx fs slices s).1.w := by
+theorem ext_executeSQLs (fs rs : Bool) (slices : List Nat) : Ext s.w (executeSQLs ctx fs rs slices s).1.w := by
   unfold executeSQLs
   split
   · exact Ext.refl _
@@ -419,8 +427,8 @@ theorem ext_executeSQLs (fs : Bool) (slices : List Nat) : Ext s.w (executeSQLs c
     | err => exact hg.trans (ext_recycleBackendConns _)
     | ok =>
       simp only
-      have hx := ext_execShard ctx (bySlice pcs).vals s1.w
-      generalize execShard ctx (bySlice pcs).vals s1.w = x at hx
+      have hx := ext_execShard ctx rs (bySlice pcs).vals s1.w
+      generalize execShard ctx rs (bySlice pcs).vals s1.w = x at hx
       obtain ⟨w2, ok⟩ := x
       exact hg.trans (hx.trans (ext_recycleBackendConns (s := { s1 with w := w2 }) _))
 
@@ -533,7 +541,7 @@ theorem ext_executeCommand (b : Body) : Ext s.w (executeCommand ctx b s).1.w := 
     dsimp only
     split
     · exact Ext.refl _
-    · exact ext_executeSQLs _ _
+    · exact ext_executeSQLs _ _ _
   | «show» => exact ext_executeSQL _ _
   | fl => exact ext_handleFieldList
   | begin => exact ext_handleBegin
@@ -552,19 +560,33 @@ theorem ext_executeCommand (b : Body) : Ext s.w (executeCommand ctx b s).1.w := 
   | disc => exact Ext.refl _
   | nsc => exact Ext.refl _
 
+theorem ext_streamRest (ctx : Ctx) (c : Nat) (w : World) : Ext w (streamRest ctx c w) := by
+  unfold streamRest
+  have h1 : Ext w (if moreRows c w then
+      (let (w, r) := call ctx .M c w; (w, r.isOk)) else (w, true)).1 := by
+    split
+    · exact ext_call _ _ _ _
+    · exact Ext.refl _
+  generalize (if moreRows c w then (let (w, r) := call ctx .M c w; (w, r.isOk)) else (w, true)) = p at h1
+  obtain ⟨w1, ok⟩ := p
+  simp only at h1 ⊢
+  split
+  · exact h1.trans (ext_call _ _ _ _)
+  · exact h1
+
 theorem ext_writeResponse (r : Resp) : Ext s.w (writeResponse ctx r s).1.w := by
   have e : (writeResponse ctx r s).1 =
       (fun s1 : St => ({ (recycleContinueConn ctx s1.continueConn s1) with continueConn := none } : St))
       (match s.continueConn with
-       | some c => if (r == .res || r == .ok) && moreRows c s.w then { s with w := (call ctx .M c s.w).1 } else s
+       | some c => if r == .res || r == .ok then { s with w := streamRest ctx c s.w } else s
        | none => s) := rfl
   rw [e]
   have h1 : Ext s.w (match s.continueConn with
-       | some c => if (r == Resp.res || r == Resp.ok) && moreRows c s.w then { s with w := (call ctx .M c s.w).1 } else s
+       | some c => if r == Resp.res || r == Resp.ok then { s with w := streamRest ctx c s.w } else s
        | none => s).w := by
     split
     · split
-      · exact ext_call _ _ _ _
+      · exact ext_streamRest _ _ _
       · exact Ext.refl _
     · exact Ext.refl _
   exact h1.trans (ext_recycleContinueConn _)
@@ -589,7 +611,7 @@ theorem ext_runCommand (b : Body) : Ext s.w (runCommand ctx b s).1.w := by
   dsimp only at h4 ⊢
   split
   · exact h4.trans (ext_clearKsConns.trans ext_sessionClose)
-  · have h5 : Ext s.w (if b == .quit || shouldClear ctx s4 then sessionClose ctx s4 else s4).w := by
+  · have h5 : Ext s.w (if b == .quit || shouldClear ctx s4 || txConnLost s4 then sessionClose ctx s4 else s4).w := by
       split
       · exact h4.trans ext_sessionClose
       · exact h4
